@@ -83,6 +83,7 @@ class HistArith(Hist):
         if spec is None:
             return
         self.ev['gadget'] = g.name
+        self.arg_shape = 'list'
         if spec.get('front') == 'generate':
             return self.run_generate(g, spec, rng)
         return self.run_add(g, spec, rng)
@@ -163,14 +164,28 @@ class HistArith(Hist):
             chosen = host.real.inputs
             self.res.stats.probes.bump('gadget-operands-are-the-live-input-list')
         operands_snapshot = list(chosen)
+        self.arg_shape = weighted_choice(rng, [('list', 12), ('tuple', 3), ('iterator', 3), ('generator', 2)])
         call, desc = spec['bind'](host.real, chosen)
-        self.ev['call'] = f'#{host.sid}.{desc}'
+        self.ev['call'] = f'#{host.sid}.{desc}' + ('' if self.arg_shape == 'list' else f' [operand lists passed as {self.arg_shape}]')
         self.ev['valid'] = True
-        repeat = (not spec.get('no_repeat')) and rng.random() < 0.12
+        repeat = (not spec.get('no_repeat')) and rng.random() < 0.16
+        edit = None
+        if repeat and rng.random() < 0.55:
+            edit = rng.choice(('rename-new-gates', 'remove-dangling-new-gates', 'operand-label-reused-for-another-gate'))
+            if edit.startswith('operand') and (spec.get('inputs_only') or chosen is host.real.inputs):
+                edit = 'rename-new-gates'
         try:
             rv = call()
             if repeat:
                 # the caller applies the same generator to the same operand list objects once more
+                if edit is not None:
+                    # ... after editing the host in between: what the first call left behind is renamed or removed, or an
+                    # operand *label* now names another gate.  The second call is judged against the host as it then is.
+                    done = self.edit_between_calls(host, pre, operands_snapshot, edit, rng)
+                    if done:
+                        pre, _ = observe.snap(host.real)
+                        self.ev['call'] += f' [then {done}]'
+                        self.res.stats.probes.bump(f'gadget-host-edited-between-calls:{edit}')
                 rv = call()
                 spec = dict(spec)
                 spec.pop('bound_kind', None)
@@ -229,6 +244,45 @@ class HistArith(Hist):
             self.quarantine([host], 'violation')
             return
         self.settle([host], with_copy=False)
+
+    def edit_between_calls(self, host, pre, operands, edit, rng):
+        real = host.real
+        try:
+            now, users = observe.snap(real)
+            new = [x for x in now.gates if x not in pre.gates]
+            if edit == 'rename-new-gates':
+                if not new:
+                    return None
+                picked = rng.sample(new, max(1, len(new) // 2))
+                for i, x in enumerate(picked):
+                    real.rename_gate(x, f'rn{self.opi}_{i}')
+                return f'renamed {len(picked)} of the {len(new)} gates the first call added'
+            if edit == 'remove-dangling-new-gates':
+                removed = 0
+                for _ in range(6):
+                    now, users = observe.snap(real)
+                    dangling = [x for x in now.gates if x not in pre.gates and not users.get(x) and x not in now.outputs]
+                    if not dangling:
+                        break
+                    for x in dangling:
+                        real.remove_gate(x)
+                        removed += 1
+                return f'removed {removed} unused gates the first call added' if removed else None
+            # the label of an operand is given to a different gate: x -> x_was, then a new gate called x
+            x = rng.choice(list(dict.fromkeys(operands)))
+            was = f'{x}_was{self.opi}'
+            if was in now.gates:
+                return None
+            real.rename_gate(x, was)
+            others = [g for g in now.gates if g != x]
+            if others and rng.random() < 0.5:
+                real.emplace_gate(x, self.GT['AND'], (was, rng.choice(others)))
+            else:
+                real.emplace_gate(x, self.GT['NOT'], (was,))
+            return f'renamed operand gate {x!r} to {was!r} and created another gate labelled {x!r}'
+        except Exception as e:  # noqa
+            self.res.stats.probes.bump(f'gadget-edit-between-calls-refused:{exc_name(e)}')
+            return None
 
     def fresh_host(self, rng, need, extra):
         """bare circuit with `need` inputs, optionally a few gates on top so that
@@ -308,8 +362,54 @@ def _basis_arg(eng, rng):
     return b, s, f'str:{s}'
 
 
+class _ShapedArgs:
+    """The arithmetic `add_*` functions declare their operands as `Iterable[Label]`.  Seen through this proxy, every
+    list the harness passes is handed over in the shape the current op has drawn: the list itself, a tuple, a one-shot
+    iterator or a generator (made anew for every call, as a caller writing `zip(...)`/`map(...)` inline would)."""
+
+    def __init__(self, mod, eng):
+        self._mod = mod
+        self._eng = eng
+
+    def __getattr__(self, name):
+        fn = getattr(self._mod, name)
+        if not callable(fn) or not name.startswith('add_'):
+            return fn
+        eng = self._eng
+        import inspect
+
+        try:
+            params = list(inspect.signature(fn).parameters.values())[1:]
+        except (TypeError, ValueError):
+            return fn
+        # only parameters the library itself declares as Iterable take part
+        iterable_pos = [('Iterable' in str(p.annotation)) for p in params]
+
+        def shaped(host, *args, **kw):
+            shape = getattr(eng, 'arg_shape', 'list')
+            if shape == 'list':
+                return fn(host, *args, **kw)
+            own = (getattr(host, '_inputs', None), getattr(host, '_outputs', None))
+
+            def conv(a):
+                if type(a) is not list or any(a is o for o in own):
+                    return a
+                if shape == 'tuple':
+                    return tuple(a)
+                if shape == 'iterator':
+                    return iter(list(a))
+                return (x for x in list(a))
+
+            new_args = [conv(a) if i < len(iterable_pos) and iterable_pos[i] else a for i, a in enumerate(args)]
+            if any(x is not y for x, y in zip(new_args, args)):
+                eng.res.stats.probes.bump(f'gadget-operands-passed-as-{shape}')
+            return fn(host, *new_args, **kw)
+
+        return shaped
+
+
 def build_specs(eng):
-    A = eng.m['arith']
+    A = _ShapedArgs(eng.m['arith'], eng)
     GEN = eng.m['gen']
     specs = []
 
@@ -548,7 +648,7 @@ def build_specs(eng):
 
     def mul_widths(rng, name):
         kara = 'karatsuba' in name
-        table = [('small', 10), ('mid', 1.5), ('wide', 0.6)]
+        table = [('small', 10), ('mid', 1.5), ('wide', 0.6), ('skinny', 1.5)]
         if kara:
             table += [('kara', 0.8), ('kara-nested', 0.35)]
         kind = weighted_choice(rng, table)
@@ -556,6 +656,8 @@ def build_specs(eng):
             n, m = rng.randint(1, 8), rng.randint(1, 8)
             if rng.random() < 0.5:
                 n, m = rng.randint(1, 5), rng.randint(1, 5)
+        elif kind == 'skinny':
+            n, m = rng.randint(1, 3), rng.randint(6, 14)
         elif kind == 'mid':
             n, m = rng.randint(9, 16), rng.randint(1, 16)
         elif kind == 'wide':
